@@ -14,6 +14,7 @@ import (
 	"github.com/aws/aws-sdk-go-v2/credentials"
 	"github.com/aws/aws-sdk-go-v2/service/s3"
 	"github.com/tailscale/setec/server"
+	"github.com/tink-crypto/tink-go/v2/insecurecleartextkeyset"
 	"io"
 	"math/rand/v2"
 	"net/http"
@@ -84,8 +85,13 @@ func markerName(rng *rand.Rand) string {
 
 func markerValue(rng *rand.Rand) []byte {
 	b := make([]byte, 24)
+	text := rng.IntN(2) == 0 // half of the values are text (passwords, tokens), half binary (keys)
 	for i := range b {
-		b[i] = byte(rng.IntN(256))
+		if text {
+			b[i] = alnum[rng.IntN(len(alnum))]
+		} else {
+			b[i] = byte(rng.IntN(256))
+		}
 	}
 	return b
 }
@@ -119,11 +125,12 @@ func TestC05(t *testing.T) {
 		crashTemporaries(t, r, tmp)
 		cacheCreation(t, r, tmp)
 		runningServerBackups(t, r, tmp)
+		forgedKeyMaterial(t, r, tmp)
 		auditLogFiles(t, r, tmp)
 		longLivedHandle(t, r, tmp)
 		clientCacheModes(t, r, tmp)
 	}
-	r.Require("files_scanned", "scans_after_operation", "kek_checks", "kek_checks_after_reopen", "bit_flips", "truncations", "splices", "foreign_key_opens", "tampered_opens_rejected", "crash_point_scans", "temporaries_scanned", "mode_checks", "kek_checks_after_failed_write", "kek_checks_long_lived_handle", "client_cache_mode_checks", "creating_open_calls_observed", "cache_crash_point_scans", "backup_uploads_scanned", "audit_dir_mode_checks", "external_stat_changes")
+	r.Require("files_scanned", "scans_after_operation", "kek_checks", "kek_checks_after_reopen", "bit_flips", "truncations", "splices", "foreign_key_opens", "tampered_opens_rejected", "crash_point_scans", "temporaries_scanned", "mode_checks", "kek_checks_after_failed_write", "kek_checks_long_lived_handle", "client_cache_mode_checks", "creating_open_calls_observed", "cache_crash_point_scans", "backup_uploads_scanned", "audit_dir_mode_checks", "external_stat_changes", "refused_writes_scanned", "forged_key_material_opens")
 	r.Rule("histories of 15-25 operations with marker names and values on a state directory holding the database and a real audit log, every file scanned after every operation, KEK call counter read after every operation (also after a reopen); tamper loop on saved files: every single-bit flip, every truncation length, version-field edits, DEK/DB splices between databases under the same and under a different KEK, foreign KEKs; crash points of a save scanned for plaintext in temporaries. Distinct = (operation kind, file kind) for scans and (tamper kind, outcome)")
 }
 
@@ -170,6 +177,13 @@ func history(t *testing.T, r *evid.Run, tmp string, h int) {
 			op.Kind = ops.Get
 		case 5:
 			op.Kind = ops.List
+		case 6:
+			// a write the database refuses (a reserved name): whatever is said about the refusal, and wherever
+			// it is written down, the value that was offered stays out of it
+			op.Name = "_internal/" + op.Name
+			op.Value = markerValue(rng)
+			values.Add(fmt.Sprintf("refused value #%d", i), op.Value)
+			r.Count("refused_writes_scanned", 1)
 		default:
 			op.Value = markerValue(rng)
 			values.Add(fmt.Sprintf("value #%d of %s", i, op.Name), op.Value)
@@ -698,6 +712,72 @@ func auditLogFiles(t *testing.T, r *evid.Run, tmp string) {
 		}
 		r.Distinct(fmt.Sprintf("audit log reopened at size class %d", round))
 	}
+}
+
+// forgedKeyMaterial: files made by somebody who knows the format but not the key-encryption key. The DEK
+// field carries key material of the forger's own making in every encoding the libraries offer (a cleartext
+// keyset in binary or JSON form, an "encrypted" keyset whose ciphertext is the cleartext, a keyset wrapped
+// under another key), and the DB field a payload encrypted under that key. None of them may open as a database.
+func forgedKeyMaterial(t *testing.T, r *evid.Run, tmp string) {
+	dir := filepath.Join(tmp, "forged")
+	os.MkdirAll(dir, 0o700)
+	kek := newKEK(t)
+	path := filepath.Join(dir, "db")
+	d, err := realdb.Open(path, kek)
+	if err != nil {
+		t.Fatal(err)
+	}
+	d.Put(realdb.Super(), "genuine", []byte("genuine-value"))
+	genuine, _ := os.ReadFile(path)
+	var gw map[string]json.RawMessage
+	json.Unmarshal(genuine, &gw)
+	orig, _ := realdb.Dump(d)
+
+	forger, err := keyset.NewHandle(aead.XChaCha20Poly1305KeyTemplate())
+	if err != nil {
+		t.Fatal(err)
+	}
+	fa, _ := aead.New(forger)
+	var clearBin, clearJSON, wrappedOther bytes.Buffer
+	insecurecleartextkeyset.Write(forger, keyset.NewBinaryWriter(&clearBin))
+	insecurecleartextkeyset.Write(forger, keyset.NewJSONWriter(&clearJSON))
+	other := newKEK(t)
+	forger.WriteWithAssociatedData(keyset.NewBinaryWriter(&wrappedOther), other, []byte("setec DEK v1"))
+	// an EncryptedKeyset message (field 2, length-delimited) whose "ciphertext" is the cleartext keyset
+	fake := append([]byte{0x12}, protoLen(clearBin.Len())...)
+	fake = append(fake, clearBin.Bytes()...)
+	payload := []byte(`{"Secrets":{"genuine":{"LatestVersion":1,"ActiveVersion":1,"Versions":{"1":"Zm9yZ2VkLXZhbHVl"}}}}`)
+	for vi, dek := range [][]byte{clearBin.Bytes(), clearJSON.Bytes(), fake, wrappedOther.Bytes(), nil, {}} {
+		for _, ctx := range []string{"setec database v1", "", "setec database v0", "setec database v2", "setec DEK v1"} {
+			for _, ver := range []int{1, 0, 2} {
+				ct, _ := fa.Encrypt(payload, []byte(ctx))
+				w := map[string]any{"Version": ver, "DEK": dek, "DB": ct}
+				b, _ := json.Marshal(w)
+				fp := filepath.Join(dir, "forged.db")
+				os.WriteFile(fp, b, 0o600)
+				fd, err := realdb.Open(fp, kek)
+				r.Eval(1)
+				r.Count("forged_key_material_opens", 1)
+				if err == nil {
+					got, derr := realdb.Dump(fd)
+					if derr != nil || got.Canon() != orig.Canon() {
+						r.Violation("tampered-file-opens-differently", -1, fmt.Sprintf("a file whose DEK field holds key material of the forger's own making (variant %d, %d bytes), DB context %q, schema version %d, opens with the server's key-encryption key and yields contents the server never stored", vi, len(dek), ctx, ver), nil)
+						return
+					}
+				}
+			}
+		}
+	}
+	r.Distinct("forged key material")
+}
+
+func protoLen(n int) []byte {
+	var out []byte
+	for n >= 0x80 {
+		out = append(out, byte(n)|0x80)
+		n >>= 7
+	}
+	return append(out, byte(n))
 }
 
 // longLivedHandle: a server that stays up for thousands of writes still never needs the key service.
